@@ -35,6 +35,15 @@ Proof. exact spec_included_address_pattern. Qed.
 Theorem C07_scrub_render : forall t, scrub full_patterns t = render t 0 (replaced_spans t).
 Proof. exact scrub_render. Qed.
 
+(* the replaced spans lie inside the text, are non-empty, increasing and pairwise disjoint *)
+Theorem C07_replaced_spans_wf : forall t, wf_spans 0 (length t) (replaced_spans t).
+Proof. exact replaced_spans_wf. Qed.
+
+(* the loop bound of the model is never reached (the Go loop is unbounded) *)
+Theorem C07_scrub_fuel_irrelevant : forall t f,
+  length t < f -> scrub full_patterns t = scrub_loop f the_full t.
+Proof. exact scrub_fuel_irrelevant. Qed.
+
 (* ... and every delimited occurrence of an address, anywhere in any text, however many other addresses
    precede it and whatever separates them, is hit by a replaced span *)
 Theorem C07_hides_all : forall pre w post,
@@ -60,6 +69,18 @@ Theorem C07_complete_lines : forall ws outs pend,
   exists lines, outs = map (scrub full_patterns) lines /\ Forall is_line lines /\
                 concat lines ++ pend = concat ws /\ no_nl pend.
 Proof. exact (write_complete_lines (scrub full_patterns)). Qed.
+
+(* writer and scrubber together, for every sequence of Write calls (= every splitting of the stream and
+   every order in which concurrent writers obtain the mutex) *)
+Theorem C07_end_to_end : forall ws outs pend,
+  run_writes (write (scrub full_patterns)) [] ws = (outs, pend) ->
+  exists lines,
+    outs = map (fun l => render l 0 (replaced_spans l)) lines /\
+    Forall is_line lines /\ concat lines ++ pend = concat ws /\ no_nl pend /\
+    forall l pre w post, In l lines -> l = pre ++ w ++ post ->
+      matches addr_spec w -> left_ok pre -> right_ok post ->
+      exists a b, In (a, b) (replaced_spans l) /\ a < length pre + length w /\ length pre < b.
+Proof. exact end_to_end. Qed.
 
 (* a scrubbed line still ends with its newline: every block the sink receives ends with '\n' *)
 Theorem C07_block_ends_with_newline : forall l, is_line l ->
